@@ -364,6 +364,25 @@ pub fn panic_site(msg: &str) -> String {
     loc.to_string()
 }
 
+
+/// A panic that escaped to the runner: if it was raised inside the code under test (its
+/// location lies in the repository's sources) it is a failure of that code on input the
+/// harness builds through public constructors; otherwise it is a harness problem.
+pub fn panic_failure(p: &str) -> Failure {
+    let repo = std::env::var("VERIF_REPO").unwrap_or_else(|_| "/repo".to_string());
+    let loc = p.rsplit(" @ ").next().unwrap_or("");
+    if p.starts_with("LIBRARY:") {
+        // the harness' conversion layer observed a public constructor misbehaving
+        let what: String = p.trim_start_matches("LIBRARY:").trim().chars().take_while(|c| *c != '(').collect();
+        return Failure::new(format!("constructor:{what}"), p.to_string());
+    }
+    if loc.starts_with(&format!("{repo}/src/")) {
+        Failure::new(format!("panic:{}", panic_site(p)), format!("the library panicked while the harness called it with well-formed arguments: {p}"))
+    } else {
+        Failure::new(format!("INTERNAL:harness-panic:{}", panic_site(p)), format!("harness panicked: {p}"))
+    }
+}
+
 // ---------------------------------------------------------------- running streams
 
 pub fn n_threads() -> usize {
@@ -379,6 +398,10 @@ pub fn n_threads() -> usize {
 }
 
 const STACK: usize = 8 << 20;
+
+/// A located case is re-run up to this many times before it counts as not reproducing
+/// (the code under test may depend on hash-map iteration order).
+const REPLAY_ATTEMPTS: usize = 32;
 
 /// One shard of a stream, in the current thread.
 pub fn run_shard(
@@ -414,6 +437,7 @@ pub fn run_shard(
             let mut runner = TestRunner::new(config);
             let strategy = proptest::collection::vec(any::<u32>(), 0..max_len);
             let failed = AtomicBool::new(false);
+            let first_failing: Mutex<Option<Vec<u32>>> = Mutex::new(None);
             let cell = Mutex::new(&mut ctx);
             let mid = mine / 2;
             let prop = property.to_string();
@@ -432,10 +456,7 @@ pub fn run_shard(
                 }
                 let mut tape = Tape::new(v);
                 let r = catch(|| f(&mut tape, ctx)).unwrap_or_else(|p| {
-                    Err(Failure::new(
-                        format!("INTERNAL:harness-panic:{}", panic_site(&p)),
-                        format!("harness panicked: {p}"),
-                    ))
+                    Err(panic_failure(&p))
                 });
                 match r {
                     Ok(()) => Ok(()),
@@ -457,7 +478,9 @@ pub fn run_shard(
                                 return Ok(());
                             }
                         }
-                        failed.store(true, Ordering::Relaxed);
+                        if !failed.swap(true, Ordering::Relaxed) {
+                            *first_failing.lock().unwrap() = Some(tape.data().to_vec());
+                        }
                         Err(TestCaseError::fail(fail.signature.clone()))
                     }
                 }
@@ -466,21 +489,34 @@ pub fn run_shard(
             let failure = match res {
                 Ok(()) => None,
                 Err(TestError::Fail(_, v)) => {
-                    // re-run the minimal tape to obtain the full failure record
-                    let mut c2 = Ctx::new(tier);
-                    c2.counting = false;
-                    let mut tape = Tape::new(v.clone());
-                    let fail = match catch(|| f(&mut tape, &mut c2)) {
-                        Ok(Err(fl)) => fl,
-                        Ok(Ok(())) => Failure::internal(
-                            "minimal tape does not reproduce (non-deterministic check)",
-                        ),
-                        Err(p) => Failure::new(
-                            format!("INTERNAL:harness-panic:{}", panic_site(&p)),
-                            format!("harness panicked: {p}"),
-                        ),
+                    // re-run the minimal tape to obtain the full failure record; the code under test may
+                    // depend on hash-map iteration order, so a failure is given several chances to recur
+                    let rerun = |tape_data: &Vec<u32>| -> Option<Failure> {
+                        for _ in 0..REPLAY_ATTEMPTS {
+                            let mut c2 = Ctx::new(tier);
+                            c2.counting = false;
+                            let mut tape = Tape::new(tape_data.clone());
+                            match catch(|| f(&mut tape, &mut c2)) {
+                                Ok(Err(fl)) => return Some(fl),
+                                Ok(Ok(())) => continue,
+                                Err(p) => {
+                                    return Some(panic_failure(&p))
+                                }
+                            }
+                        }
+                        None
                     };
-                    Some((fail, json!({"tape": v})))
+                    let first = first_failing.lock().unwrap().clone();
+                    match rerun(&v) {
+                        Some(fl) => Some((fl, json!({"tape": v}))),
+                        None => match first.as_ref().and_then(|t| rerun(t).map(|fl| (fl, t.clone()))) {
+                            Some((fl, t)) => Some((fl, json!({"tape": t}))),
+                            None => Some((
+                                Failure::internal("a failure was observed once but neither the minimal nor the original tape reproduces it in 32 attempts (non-deterministic)"),
+                                json!({"tape": v}),
+                            )),
+                        },
+                    }
                 }
                 Err(TestError::Abort(r)) => Some((
                     Failure::internal(format!("proptest aborted: {r}")),
@@ -507,10 +543,7 @@ pub fn run_shard(
                     let _ = std::fs::write(t, format!("[{i}]"));
                 }
                 let r = catch(|| f(i, &mut ctx)).unwrap_or_else(|p| {
-                    Err(Failure::new(
-                        format!("INTERNAL:harness-panic:{}", panic_site(&p)),
-                        format!("harness panicked: {p}"),
-                    ))
+                    Err(panic_failure(&p))
                 });
                 if let Err(fail) = r {
                     let known = if fail.is_internal() {
@@ -720,21 +753,22 @@ pub fn replay_case(stream: &Stream, tier: Tier, loc: &Json) -> Result<(), Failur
                 .as_array()
                 .map(|a| a.iter().map(|x| x.as_u64().unwrap_or(0) as u32).collect())
                 .unwrap_or_default();
-            let mut tape = Tape::new(v);
-            catch(|| f(&mut tape, &mut ctx)).unwrap_or_else(|p| {
-                Err(Failure::new(
-                    format!("INTERNAL:harness-panic:{}", panic_site(&p)),
-                    format!("harness panicked: {p}"),
-                ))
-            })
+            let mut last = Ok(());
+            for _ in 0..REPLAY_ATTEMPTS {
+                let mut tape = Tape::new(v.clone());
+                last = catch(|| f(&mut tape, &mut ctx)).unwrap_or_else(|p| {
+                    Err(panic_failure(&p))
+                });
+                if last.is_err() {
+                    break;
+                }
+            }
+            last
         }
         Kind::Enum { f, .. } => {
             let i = loc["index"].as_u64().unwrap_or(0);
             catch(|| f(i, &mut ctx)).unwrap_or_else(|p| {
-                Err(Failure::new(
-                    format!("INTERNAL:harness-panic:{}", panic_site(&p)),
-                    format!("harness panicked: {p}"),
-                ))
+                Err(panic_failure(&p))
             })
         }
     }
